@@ -280,6 +280,17 @@ impl ReplaySpec for QSpec {
     }
 }
 
+/// denser grid for the thorough tier
+pub fn pgrid_dense() -> Vec<f64> {
+    let mut v = pgrid();
+    for k in 1..40 {
+        v.push(k as f64 / 40.0);
+    }
+    v.extend([0.2, 0.3, 0.7, 1e-9, 1.0 - 1e-9]);
+    v.sort_by(|a, b| a.partial_cmp(b).unwrap());
+    v.dedup_by(|a, b| a.to_bits() == b.to_bits());
+    v
+}
 pub fn pgrid() -> Vec<f64> {
     vec![0., 5e-324, 0.01, 0.1, 0.25, 1. / 3., 0.5, 0.75, 0.9, 0.99, 0.999, 1. - (2.0f64).powi(-53), 1.]
 }
